@@ -355,6 +355,9 @@ def _mk_llm(mode, subst, every):
         calls: list = []
         i: int = 0
         turn: int = 0
+        markers: list = []        # texts that must stay literal in every prompt once they are in the history
+        watch_from: float = -1     # index of the call after which they are in the history (-1: not yet)
+        emitted: str = ""         # everything returned as a reply so far
 
         @property
         def _llm_type(self) -> str:
@@ -373,7 +376,16 @@ def _mk_llm(mode, subst, every):
             else:
                 text = good_answer(kind, prompt)
                 hostile = False
-            self.calls.append({"i": k, "kind": kind, "hostile": hostile, "turn": self.turn})
+            entry = {"i": k, "kind": kind, "hostile": hostile, "turn": self.turn}
+            # the prompt itself is observed: evaluated residue of earlier LLM / user text, and
+            # (for the history-marker cases) the literal presence of that text
+            p = prompt if isinstance(prompt, str) else json.dumps(prompt, default=str)
+            res = [bad for bad in FORBIDDEN if bad in p and bad not in self.emitted]
+            if res:
+                entry["residue"] = res
+            if self.markers and self.watch_from >= 0 and k > self.watch_from:
+                entry["missing"] = [m for m in self.markers if m not in p]
+            self.calls.append(entry)
             return text
 
         def _call(self, prompt: str, stop: Optional[List[str]] = None, run_manager=None, **kwargs: Any) -> str:
@@ -425,6 +437,9 @@ def run_conversation(case, cfg_cache):
         cfg_cache[mode] = RailsConfig.from_path(os.path.join(CFG_ROOT, mode))
     config = cfg_cache[mode]
     llm = _mk_llm(mode, case.get("subst"), case.get("every"))
+    llm.markers = list(case.get("history_markers") or [])
+    if case.get("markers_typed_by_user"):
+        llm.watch_from = -0.5          # in the history from the first prompt on
     res = {"replies": [], "calls": llm.calls, "fail": None}
     try:
         app = LLMRails(config, llm=llm)
@@ -461,6 +476,10 @@ def run_conversation(case, cfg_cache):
             if bad in text:
                 res["fail"] = {"kind": "evaluated", "turn": t, "found": bad, "reply": text[:300]}
                 return res
+        llm.emitted += "\n" + text
+        if llm.markers and llm.watch_from == -1 and all(m in text for m in llm.markers):
+            llm.watch_from = llm.i - 1          # from now on the text is part of the history
+            res["markers_in_history_after_turn"] = t
         history.append(r)
     return res
 
@@ -1177,6 +1196,15 @@ def gen_cases(rng, tier):
                 for k in range(NPOS[mode]):
                     for t in ts:
                         cases.append({"mode": mode, "turns": TURNS[mode], "subst": {str(k): t}})
+    # template / variable text that ENTERS THE HISTORY (LLM bot message, or typed by the user) must stay
+    # literal in every later prompt and must not disturb later turns
+    for mode, (pos_kind_texts, user_turns) in HISTORY_CASES.items():
+        for hm in (HISTORY_MARKER_SETS if tier == "thorough" else HISTORY_MARKER_SETS[:4] + HISTORY_MARKER_SETS[5:6]):
+            body = " and ".join(hm)
+            for pos, fmt in pos_kind_texts:
+                cases.append({"mode": mode, "turns": TURNS[mode], "subst": {pos: fmt.format(m=body)}, "history_markers": hm})
+            cases.append({"mode": mode, "turns": [user_turns[0] + " " + body] + list(user_turns[1:]), "history_markers": hm,
+                          "markers_typed_by_user": True})
     # generated values: every unstorable constant at every structural position of the literal
     for mode in ("v2_value", "v2_saylike"):
         for t in unsupported_literal_texts():
@@ -1195,7 +1223,19 @@ def gen_cases(rng, tier):
     return cases
 
 
-_CTXVAR = None
+# marker sets: each must come back / stay literal (balanced and unbalanced Jinja, config variables, $vars)
+HISTORY_MARKER_SETS = [["{{ 7*191 }}"], ["{{ general_instructions }}", "{{ secret }}"], ["{% for i in range(3) %}Z{% endfor %}"],
+                       ["{{ unclosed"], ["{% if"], ["$secret", "{$x}", "${user_name}"], ["{# c #}", "{{ 1336 + 1 }}"]]
+# mode -> ([(call index of a MESSAGE position in turn 1 or 2, format of a well-formed message)], user turns)
+HISTORY_CASES = {
+    "v1_general": ([("0", "Result {m}.")], TURNS["v1_general"]),
+    "v1_dialog": ([("3", '  "Result {m}."')], TURNS["v1_dialog"]),
+    "v1_multi_step": ([("3", '  "Result {m}."')], TURNS["v1_multi_step"]),
+    "v1_single_call": ([("1", '  ask x\nbot inform y\n  "Result {m}."')], TURNS["v1_single_call"]),
+    "v2_llm": ([], TURNS["v2_llm"]),    # (a generated flow is CODE: `{{` in its string literals is Colang's escape) user-typed text only
+    "v2_value": ([("0", "'Result {m}.'")], TURNS["v2_value"]),
+}
+_NO_HISTORY_TEXT = {"next_steps", "passthrough", "other"}      # prompts that do not render the message texts
 
 
 def judge(case, r, kind_at):
@@ -1231,6 +1271,22 @@ def judge(case, r, kind_at):
         if f["kind"] == "hang":
             return (f"{case['mode']}/{kind}/hang", f"generate did not return ({f.get('why')})")
         return (f"{case['mode']}/{kind}/{f['kind']}", json.dumps(f)[:200])
+    # evaluated residue of earlier LLM / user text inside a LATER PROMPT
+    for x in r.get("calls", []):
+        if x.get("residue"):
+            return (f"{case['mode']}/{x['kind']}/evaluated-in-later-prompt",
+                    f"the prompt of call {x['i']} ({x['kind']}, turn {x['turn']}) contains {x['residue']}: text of an earlier turn was evaluated")
+    if case.get("history_markers"):
+        for x in r.get("calls", []):
+            if x.get("missing") and x["kind"] not in _NO_HISTORY_TEXT:
+                return (f"{case['mode']}/{x['kind']}/history-text-not-literal-in-prompt",
+                        f"the prompt of call {x['i']} ({x['kind']}, turn {x['turn']}) no longer contains {x['missing']} literally")
+        for t, rep in enumerate(r.get("replies", [])):
+            if isinstance(rep, dict) and rep.get("content") == "I'm sorry, an internal error has occurred.":
+                return (f"{case['mode']}/history/later-turn-internal-error",
+                        f"turn {t} ended with the internal-error reply after template text entered the history")
+        if not case.get("markers_typed_by_user") and "markers_in_history_after_turn" not in r:
+            return (f"{case['mode']}/history/message-not-literal-in-reply", "the LLM message text with the markers did not come back literally")
     # literal pass-through of template text at message positions
     for k in ks:
         c = calls.get(k)
@@ -1277,7 +1333,7 @@ def run(tier, seed, replay=None):
                     if c.get("kind") == "helper":
                         corpus_diff.append((c["helper"], c["text"], c.get("text2"), c.get("lens")))
                     elif "mode" in c:
-                        corpus_e2e.append({k: c[k] for k in ("mode", "turns", "subst", "every") if k in c})
+                        corpus_e2e.append({k: c[k] for k in ("mode", "turns", "subst", "every", "history_markers", "markers_typed_by_user") if k in c})
     replay_case = None
     if replay:
         d = json.load(open(replay))
@@ -1288,7 +1344,7 @@ def run(tier, seed, replay=None):
             corpus_diff = [(rc["helper"], rc["text"], rc.get("text2"), rc.get("lens"))] if rc["helper"] != "HCtxUtter" else []
             corpus_e2e = []
         else:
-            replay_case = {k: rc[k] for k in ("mode", "turns", "subst", "every") if k in rc}
+            replay_case = {k: rc[k] for k in ("mode", "turns", "subst", "every", "history_markers", "markers_typed_by_user") if k in rc}
             corpus_e2e, corpus_diff = [replay_case], []
 
     import logging
